@@ -58,6 +58,23 @@ class Scaler(Transformer):
         if not isinstance(X, (xr.DataArray, xr.Dataset)):
             raise TypeError(f"{name} must be an xarray DataArray or Dataset")
 
+    def _verify_dims(self, X):
+        # The fitted statistics are broadcast against the data, which would silently
+        # re-create a dimension the data lacks
+        for stat in (self.mean_, self.std_, self.coslat_weights_, self.weights_):
+            if isinstance(stat, xr.Dataset) and isinstance(X, xr.Dataset):
+                pairs = [(X[v], stat[v]) for v in stat.data_vars if v in X.data_vars]
+            elif isinstance(stat, xr.DataArray) and isinstance(X, xr.DataArray):
+                pairs = [(X, stat)]
+            else:
+                pairs = []
+            for x, s in pairs:
+                missing = set(s.dims) - set(x.dims)
+                if missing:
+                    raise ValueError(
+                        f"Cannot transform data. Dimensions {missing} are missing."
+                    )
+
     def _process_weights(self, X: DataVarBound, weights) -> DataVarBound:
         if weights is None:
             wghts: DataVarBound = feature_ones_like(X, self.feature_dims)
@@ -140,6 +157,7 @@ class Scaler(Transformer):
 
         """
         self._verify_input(X, "X")
+        self._verify_dims(X)
 
         params = self.get_params()
 
